@@ -85,9 +85,7 @@ class ConsHarness(symex.Harness):
                     return Z.BoolVal(False)
                 seen.append(k)
                 cs.append(Z.And(sp.placed[pos_of[k]], sp.layer[pos_of[k]] == iv(L)))
-            # layer order inside a layer: the order of the base (stable)
-            if [pos_of[k] for k in layer] != sorted(pos_of[k] for k in layer):
-                return Z.BoolVal(False)
+            # (the order of the conditionals inside a layer is not part of the property)
         if self.weakly:
             for k in part[-1]:
                 if k not in pos_of or k in seen:
